@@ -139,11 +139,11 @@ func (w *World) mutesProbe(i int, ls map[string]string) (bool, []string) {
 }
 
 type c02Async struct {
-	Labels     map[string]string
+	Labels      map[string]string
 	Invoke, Ret Dur
-	Muted      bool
-	IDs        []string
-	Done       bool
+	Muted       bool
+	IDs         []string
+	Done        bool
 }
 
 type c02State struct {
@@ -735,9 +735,9 @@ func c02Check(p *Plan, r *RunResult) *Verdict {
 func init() {
 	Register(&Prop{
 		ID: "C02", Level: "exploration", Gen: c02Gen, Check: c02Check,
-		Rule: "seeded history on one real instance: 1-5 silences created through the API or arriving as replicated versions via Silences.Merge (one or two OR-ed matcher sets; = != =~ !~), follow-ups aimed around their expiry (API edit/expire; merged extend/shorten/expire/revive-after-expiry/stale/duplicate versions; explicit GC), maintenance GC every 20 s-5 min with retention 1-15 min, alert timelines with provider GC every 10 s-3 min (mute-cache eviction), optional graceful restart (snapshot reload), 10-40 sequential probes of Silencer.Mutes for every label set of the run, API reads, and in half of the runs concurrent probes parked for 0.5-20 s at the yield points inside Mutes while the following updates run. Non-trivial: at least one probe was compared with the direct evaluation; distinct by abstract trace plus fault/merge mix.",
-		Real: []string{"app.New wiring", "silence.Silences (Set, expire, Merge, GC, Query, snapshot load)", "silence.Silencer + cache", "provider/mem GC callback", "api/v2", "dispatch + notify pipeline (mute stage)"},
-		Stub: []string{"clock (synctest)", "peer (crafted protobuf handed to Silences.Merge)", "receiver endpoint", "snapshot disk (simfs)", "parking of concurrent Mutes calls at verifhook yield sites"},
+		Rule:        "seeded history on one real instance: 1-5 silences created through the API or arriving as replicated versions via Silences.Merge (one or two OR-ed matcher sets; = != =~ !~), follow-ups aimed around their expiry (API edit/expire; merged extend/shorten/expire/revive-after-expiry/stale/duplicate versions; explicit GC), maintenance GC every 20 s-5 min with retention 1-15 min, alert timelines with provider GC every 10 s-3 min (mute-cache eviction), optional graceful restart (snapshot reload), 10-40 sequential probes of Silencer.Mutes for every label set of the run, API reads, and in half of the runs concurrent probes parked for 0.5-20 s at the yield points inside Mutes while the following updates run. Non-trivial: at least one probe was compared with the direct evaluation; distinct by abstract trace plus fault/merge mix.",
+		Real:        []string{"app.New wiring", "silence.Silences (Set, expire, Merge, GC, Query, snapshot load)", "silence.Silencer + cache", "provider/mem GC callback", "api/v2", "dispatch + notify pipeline (mute stage)"},
+		Stub:        []string{"clock (synctest)", "peer (crafted protobuf handed to Silences.Merge)", "receiver endpoint", "snapshot disk (simfs)", "parking of concurrent Mutes calls at verifhook yield sites"},
 		Assumptions: []string{"probes that fall exactly on a silence's start or end instant are skipped (the two state functions in the code base read the boundary differently)", "concurrent verdicts are accepted if they equal the direct evaluation of any store state recorded between invocation and return"},
 	})
 }
